@@ -41,7 +41,7 @@ import (
 var (
 	lengthV4   = uint16(12)
 	lengthV6   = uint16(36)
-	lengthUnix = uint16(218)
+	lengthUnix = uint16(216)
 
 	lengthV4Bytes = func() []byte {
 		a := make([]byte, 2)
